@@ -122,6 +122,10 @@ func main() {
 		}
 		e := w.engine(d, l)
 		for _, o := range opaques {
+			if strings.HasPrefix(o, "hof:") {
+				e.hof[strings.TrimPrefix(o, "hof:")] = 0
+				continue
+			}
 			e.opaque[o] = true
 		}
 		var roots []*ssa.Function
